@@ -21,7 +21,7 @@ static std::string run_case(const J &c, std::string &sig) {
     const J &ops = c["ops"];
     const int maxw = (int)inbits.size() + (int)ops.size() + 1;
     LweSample *w = new_gate_bootstrapping_ciphertext_array(maxw, K.params);
-    std::vector<int> bit(maxw, 0), depth(maxw, 0), forged(maxw, 0);
+    std::vector<int> bit(maxw, 0), depth(maxw, 0), forged(maxw, 0), trivial(maxw, 0);
     int nw = 0;
     for (int64_t b : inbits) { bootsSymEncrypt(w + nw, (int)(b & 1), K.sk); bit[nw] = (int)(b & 1); nw++; }
     std::string why;
@@ -32,7 +32,7 @@ static std::string run_case(const J &c, std::string &sig) {
         int g = (int)op[0].i(), i1 = (int)(op[1].i() % nw), i2 = (int)(op[2].i() % nw), i3 = (int)(op[3].i() % nw);
         int64_t oraw = op[4].i();
         if (g >= 100) { // harness pseudo-op on wire i1
-            if (g == 110) { bootsSymEncrypt(w + i1, bit[i1], K.sk); depth[i1] = 0; forged[i1] = 0; }
+            if (g == 110) { bootsSymEncrypt(w + i1, bit[i1], K.sk); depth[i1] = 0; forged[i1] = 0; trivial[i1] = 0; }
             else { int32_t e = (g == 100 ? 1 : -1) * (1 << 27); forge_phase(w + i1, (bit[i1] ? MU8 : (uint32_t)0 - MU8) + (uint32_t)e, sk); forged[i1] = 1; }
             continue;
         }
@@ -41,14 +41,14 @@ static std::string run_case(const J &c, std::string &sig) {
         int ar = GATES[g].arity;
         int cst = (int)(op[1].i() & 1);
         int want = g == G_CONSTANT ? cst : gate_truth(g, bit[i1], bit[i2], bit[i3]);
-        int dmin = 1 << 30, dmax = 0, anyf = 0;
-        for (int q = 0; q < ar && g != G_CONSTANT; q++) { int ix = q == 0 ? i1 : q == 1 ? i2 : i3; dmin = std::min(dmin, depth[ix]); dmax = std::max(dmax, depth[ix]); anyf |= forged[ix]; }
+        int dmin = 1 << 30, dmax = 0, anyf = 0, alltriv = 1;
+        for (int q = 0; q < ar && g != G_CONSTANT; q++) { int ix = q == 0 ? i1 : q == 1 ? i2 : i3; dmin = std::min(dmin, depth[ix]); dmax = std::max(dmax, depth[ix]); anyf |= forged[ix]; alltriv &= trivial[ix]; }
         gate_apply(g, w + out, w + i1, w + i2, w + i3, cst, K.ck);
         if (out == nw) nw++;
         bit[out] = want;
-        if (g == G_CONSTANT) { depth[out] = 0; forged[out] = 0; }
-        else if (g == G_NOT || g == G_COPY) { depth[out] = depth[i1]; forged[out] = forged[i1]; }
-        else { depth[out] = dmax + 1; forged[out] = 0; }
+        if (g == G_CONSTANT) { depth[out] = 0; forged[out] = 0; trivial[out] = 1; }
+        else if (g == G_NOT || g == G_COPY) { int d1 = depth[i1], f1 = forged[i1], t1 = trivial[i1]; depth[out] = d1; forged[out] = f1; trivial[out] = t1; }
+        else { depth[out] = dmax + 1; forged[out] = 0; trivial[out] = 0; }
         // oracle 1: model-based, after every step
         int got = bootsSymDecrypt(w + out, K.sk);
         uint32_t ph = xphase(w + out, sk);
@@ -61,7 +61,8 @@ static std::string run_case(const J &c, std::string &sig) {
             if (std::fabs(e) >= 3.0 / 64) { snprintf(buf, sizeof buf, "step %zu: %s output phase error %.5f not below 3/64 (input depths %d..%d)", s, GATES[g].name, e, dmin, dmax); why = buf; break; }
             if (g_collect) {
                 const char *gc = g == G_MUX ? "mux" : "bin";
-                const char *ic = anyf ? "forgedmax" : dmax == 0 ? "fresh" : dmin >= 50 ? "deep" : "mid";
+                // all-trivial inputs (zero masks) skip the blind rotation altogether: legitimately less noise, kept apart from the independence test
+                const char *ic = alltriv ? "trivialin" : anyf ? "forgedmax" : dmax == 0 ? "fresh" : dmin >= 50 ? "deep" : "mid";
                 g_acc[std::string("st/") + std::to_string(K.lambda) + "/" + gc + "/" + ic].add(e);
                 g_acc[std::string("km/") + keytag + "/" + gc].add(e);
             }
